@@ -17,21 +17,81 @@ const (
 	keyBtRef = "C|btree|ref"
 )
 
-// groupKeyOf finds the []Value key a btree item carries: the item itself (GroupKey) or its first slice-typed field.
-func (e *Exec) groupKeyOf(st *BState, t types.Type, payload SV) *SliceV {
+const keyBtLen = "C|btree|len"
+
+// Key classes. Every btree item is mapped to an Int "key class" such that two items are equivalent under the
+// item type's Less iff their classes are equal, and Less is < on the classes (an interpretation of the abstract
+// order as integer rank — sound for any total order; the precondition that Less is a strict weak order is proved
+// from the real Less methods under C09). The class of an item is derived from its key fields:
+//   a []Value row (GroupKey, embedded or field)        -> cls.row(slice)          (uninterpreted)
+//   a time.Time key (recordEventTimeBufferItem)        -> the instant in ns        (so order on classes = time order)
+//   several key fields (watermarkTriggerKey, orderByItem, min/max/array keys) -> an uninterpreted function of the
+//   field classes, named after the type.
+func (e *Exec) classOfValue(st *BState, t types.Type, payload SV) *Term {
 	switch u := t.Underlying().(type) {
 	case *types.Slice:
-		return payload.(*SliceV)
+		return rowClass(payload.(*SliceV))
 	case *types.Pointer:
-		obj := e.loadObj(st, payload.(*PtrV).Addr, u.Elem()).(*StructV)
-		s := u.Elem().Underlying().(*types.Struct)
-		for i := 0; i < s.NumFields(); i++ {
-			if _, ok := s.Field(i).Type().Underlying().(*types.Slice); ok {
-				return obj.Fields[i].(*SliceV)
+		obj := e.loadObj(st, payload.(*PtrV).Addr, u.Elem())
+		return e.classOfStruct(u.Elem(), obj.(*StructV))
+	case *types.Struct:
+		return e.classOfStruct(t, payload.(*StructV))
+	}
+	panic("btree item without a key: " + t.String())
+}
+
+func (e *Exec) classOfStruct(t types.Type, obj *StructV) *Term {
+	s := t.Underlying().(*types.Struct)
+	var parts []*Term
+	for i := 0; i < s.NumFields(); i++ {
+		f := s.Field(i)
+		switch ft := f.Type().Underlying().(type) {
+		case *types.Slice:
+			if isValueSlice(ft) {
+				parts = append(parts, rowClass(obj.Fields[i].(*SliceV)))
+			}
+		case *types.Struct:
+			if isTime(f.Type()) {
+				tv := obj.Fields[i].(*StructV)
+				parts = append(parts, scal(tv.Fields[0]))
+				if keyIncludesAux(t, f.Name()) {
+					parts = append(parts, scal(tv.Fields[1]))
+				}
+			} else if isOctoValue(f.Type()) {
+				// a single Value key: class of the value (uninterpreted over its leaves)
+				var ls []*Term
+				leaves(obj.Fields[i], &ls)
+				var sorts []string
+				for _, l := range ls {
+					sorts = append(sorts, l.Sort)
+				}
+				parts = append(parts, ufun("cls.value", sorts, SInt, ls...))
 			}
 		}
 	}
-	panic("btree item without a group key: " + t.String())
+	if len(parts) == 0 {
+		panic("btree item without a key: " + t.String())
+	}
+	if len(parts) == 1 {
+		return parts[0]
+	}
+	var sorts []string
+	for range parts {
+		sorts = append(sorts, SInt)
+	}
+	return ufun("cls."+sanitize(typeKey(t)), sorts, SInt, parts...)
+}
+
+func isOctoValue(t types.Type) bool {
+	n, ok := t.(*types.Named)
+	return ok && n.Obj().Name() == "Value" && n.Obj().Pkg() != nil && strings.HasSuffix(n.Obj().Pkg().Path(), "octosql/octosql")
+}
+
+func isValueSlice(s *types.Slice) bool { return isOctoValue(s.Elem()) }
+
+// keyIncludesAux: item types whose Less compares a time.Time with == (so the zone/monotonic part takes part in the key).
+func keyIncludesAux(t types.Type, field string) bool {
+	return strings.HasSuffix(typeKey(t), "watermarkTriggerKey")
 }
 
 func (e *Exec) itemClass(fr *Frame, st *BState, arg ssa.Value, sv SV) *Term {
@@ -40,45 +100,110 @@ func (e *Exec) itemClass(fr *Frame, st *BState, arg ssa.Value, sv SV) *Term {
 	if !ok {
 		panic("btree: item of unknown dynamic type")
 	}
-	return rowClass(e.groupKeyOf(st, mi.X.Type(), e.val(fr, mi.X)))
+	return e.classOfValue(st, mi.X.Type(), e.val(fr, mi.X))
+}
+
+func btreeMethod(f *ssa.Function) (string, bool) {
+	s := f.String()
+	if s == "github.com/google/btree.New" {
+		return "New", true
+	}
+	if strings.HasPrefix(s, "(*github.com/google/btree.BTree).") {
+		return strings.TrimPrefix(s, "(*github.com/google/btree.BTree)."), true
+	}
+	return "", false
 }
 
 func (e *Exec) btreeCall(fr *Frame, st *BState, x *ssa.Call, f *ssa.Function, args []SV) (SV, bool) {
-	s := f.String()
-	if !strings.HasPrefix(s, "(*github.com/google/btree.BTree).") && s != "github.com/google/btree.New" {
+	m, ok := btreeMethod(f)
+	if !ok {
 		return nil, false
 	}
 	aIB, aII := arrSort(SInt, sortArrIB), arrSort(SInt, sortArrII)
 	get := func(key string, sort string) *Term { return e.heapArr(st, key, sort) }
-	switch strings.TrimPrefix(s, "(*github.com/google/btree.BTree).") {
-	case "github.com/google/btree.New":
+	hasAt := func(t, c *Term) *Term { return sel(sel(get(keyBtHas, aIB), t, sortArrIB), c, SBool) }
+	tagAt := func(t, c *Term) *Term { return sel(sel(get(keyBtTag, aII), t, sortArrII), c, SInt) }
+	refAt := func(t, c *Term) *Term { return sel(sel(get(keyBtRef, aII), t, sortArrII), c, SInt) }
+	lenOf := func(t *Term) *Term { return sel(get(keyBtLen, sortArrII), t, SInt) }
+	setLen := func(t, v *Term) { st.heap[keyBtLen] = sto(get(keyBtLen, sortArrII), t, v) }
+	setHas := func(t, c, v *Term) {
+		h := get(keyBtHas, aIB)
+		st.heap[keyBtHas] = sto(h, t, sto(sel(h, t, sortArrIB), c, v))
+	}
+	qk := func() *Term {
+		nbound++
+		return mk(SInt, fmt.Sprintf("k!q%d", nbound))
+	}
+	forallK := func(k, body *Term) *Term { return mk(SBool, "forall", mk("binder", "(("+k.Op+" Int))"), body) }
+	// extreme(t, min): a fresh key class that is the least (greatest) present one, and whether the tree is empty
+	extreme := func(t *Term, min bool) (*Term, *Term) {
+		c := e.fresh("bt.ext", SInt)
+		k := qk()
+		empty := forallK(k, not(hasAt(t, k)))
+		k2 := qk()
+		var bnd *Term
+		if min {
+			bnd = le(c, k2)
+		} else {
+			bnd = le(k2, c)
+		}
+		e.assume(implies(st.reach, or(empty, and(hasAt(t, c), forallK(k2, implies(hasAt(t, k2), bnd))))))
+		e.assume(implies(st.reach, eq(eq(lenOf(t), intLit(0)), empty)))
+		return c, empty
+	}
+	switch m {
+	case "New":
 		t := e.allocAddr(st)
 		st.heap[keyBtHas] = sto(get(keyBtHas, aIB), t, mk(sortArrIB, "((as const "+sortArrIB+") false)"))
+		setLen(t, intLit(0))
 		return &PtrV{Ty: x.Type(), Addr: t}, true
-	case "Get":
+	case "Get", "Has":
 		t := args[0].(*PtrV).Addr
 		c := e.itemClass(fr, st, x.Call.Args[1], args[1])
-		has := sel(sel(get(keyBtHas, aIB), t, sortArrIB), c, SBool)
-		tag := sel(sel(get(keyBtTag, aII), t, sortArrII), c, SInt)
-		ref := sel(sel(get(keyBtRef, aII), t, sortArrII), c, SInt)
-		return &IfaceV{Ty: x.Type(), Tag: ite(has, tag, intLit(0)), Ref: ite(has, ref, intLit(0))}, true
+		has := hasAt(t, c)
+		if m == "Has" {
+			return boolSV(has), true
+		}
+		return &IfaceV{Ty: x.Type(), Tag: ite(has, tagAt(t, c), intLit(0)), Ref: ite(has, refAt(t, c), intLit(0))}, true
 	case "ReplaceOrInsert":
 		t := args[0].(*PtrV).Addr
 		c := e.itemClass(fr, st, x.Call.Args[1], args[1])
 		iv := args[1].(*IfaceV)
-		h, tg, rf := get(keyBtHas, aIB), get(keyBtTag, aII), get(keyBtRef, aII)
-		old := &IfaceV{Ty: x.Type(), Tag: ite(sel(sel(h, t, sortArrIB), c, SBool), sel(sel(tg, t, sortArrII), c, SInt), intLit(0)), Ref: sel(sel(rf, t, sortArrII), c, SInt)}
-		st.heap[keyBtHas] = sto(h, t, sto(sel(h, t, sortArrIB), c, tTrue))
+		was := hasAt(t, c)
+		old := &IfaceV{Ty: x.Type(), Tag: ite(was, tagAt(t, c), intLit(0)), Ref: refAt(t, c)}
+		setLen(t, add(lenOf(t), ite(was, intLit(0), intLit(1))))
+		setHas(t, c, tTrue)
+		tg, rf := get(keyBtTag, aII), get(keyBtRef, aII)
 		st.heap[keyBtTag] = sto(tg, t, sto(sel(tg, t, sortArrII), c, iv.Tag))
 		st.heap[keyBtRef] = sto(rf, t, sto(sel(rf, t, sortArrII), c, iv.Ref))
 		return old, true
 	case "Delete":
 		t := args[0].(*PtrV).Addr
 		c := e.itemClass(fr, st, x.Call.Args[1], args[1])
-		h := get(keyBtHas, aIB)
-		old := &IfaceV{Ty: x.Type(), Tag: ite(sel(sel(h, t, sortArrIB), c, SBool), sel(sel(get(keyBtTag, aII), t, sortArrII), c, SInt), intLit(0)), Ref: sel(sel(get(keyBtRef, aII), t, sortArrII), c, SInt)}
-		st.heap[keyBtHas] = sto(h, t, sto(sel(h, t, sortArrIB), c, tFalse))
+		was := hasAt(t, c)
+		old := &IfaceV{Ty: x.Type(), Tag: ite(was, tagAt(t, c), intLit(0)), Ref: refAt(t, c)}
+		setLen(t, sub(lenOf(t), ite(was, intLit(1), intLit(0))))
+		setHas(t, c, tFalse)
 		return old, true
+	case "Len":
+		t := args[0].(*PtrV).Addr
+		k := qk()
+		e.assume(implies(st.reach, and(le(intLit(0), lenOf(t)), le(lenOf(t), bigLit("MAX64")), eq(eq(lenOf(t), intLit(0)), forallK(k, not(hasAt(t, k)))))))
+		return intSV(lenOf(t)), true
+	case "Min", "Max", "DeleteMin", "DeleteMax":
+		t := args[0].(*PtrV).Addr
+		c, empty := extreme(t, m == "Min" || m == "DeleteMin")
+		res := &IfaceV{Ty: x.Type(), Tag: ite(empty, intLit(0), tagAt(t, c)), Ref: ite(empty, intLit(0), refAt(t, c))}
+		if strings.HasPrefix(m, "Delete") {
+			setLen(t, sub(lenOf(t), ite(empty, intLit(0), intLit(1))))
+			h := get(keyBtHas, aIB)
+			st.heap[keyBtHas] = sto(h, t, ite(empty, sel(h, t, sortArrIB), sto(sel(h, t, sortArrIB), c, tFalse)))
+		}
+		st.ghost["$btkey"] = intSV(c)
+		ghostTypes["$btkey"] = types.Typ[types.Int]
+		return res, true
+	case "Ascend":
+		return e.ascend(fr, st, x, args), true
 	}
 	return nil, false
 }
@@ -89,6 +214,48 @@ func (env *SpecEnv) btreeSpec(name string, n *ast.CallExpr) (SV, bool) {
 	aIB, aII := arrSort(SInt, sortArrIB), arrSort(SInt, sortArrII)
 	tree := func() *Term { return env.eval(n.Args[0]).(*PtrV).Addr }
 	switch name {
+	case "outAtLastMeta":
+		if v, ok := st.ghost["$outAtMeta"]; ok {
+			return v, true
+		}
+		return intSV(intLit(0)), true
+	case "iref":
+		return intSV(env.eval(n.Args[0]).(*IfaceV).Ref), true
+	case "itag":
+		return intSV(env.eval(n.Args[0]).(*IfaceV).Tag), true
+	case "deref":
+		return env.deref(env.eval(n.Args[0])), true
+	case "tlen":
+		return intSV(sel(e.heapArr(st, keyBtLen, sortArrII), tree(), SInt)), true
+	case "lastkey":
+		// the key class chosen by the latest Min/Max/DeleteMin/DeleteMax or visited by the running Ascend
+		if v, ok := st.ghost["$btkey"]; ok {
+			return v, true
+		}
+		panic("spec: lastkey() before any Min/Max/Ascend")
+	case "ascbound":
+		if v, ok := st.ghost["$ascbound"]; ok {
+			return v, true
+		}
+		panic("spec: ascbound() outside an Ascend")
+	case "stopped":
+		if v, ok := st.ghost["$ascstopped"]; ok {
+			return v, true
+		}
+		return boolSV(tFalse), true
+	case "keycls":
+		// keycls(x): the key class of a btree item value or pointer
+		v := env.eval(n.Args[0])
+		var t types.Type
+		switch x := v.(type) {
+		case *PtrV:
+			t = x.Ty
+		case *SliceV:
+			t = x.Ty
+		case *StructV:
+			t = x.Ty
+		}
+		return intSV(e.classOfValue(st, t, v)), true
 	case "thas":
 		return boolSV(sel(sel(e.heapArr(st, keyBtHas, aIB), tree(), sortArrIB), scal(env.eval(n.Args[1])), SBool)), true
 	case "ttag":
